@@ -165,6 +165,20 @@ Proof.
   unfold dt_inst, dt_off. cbn [dt_W dt_fold dt_tz tz_off]. unfold MEG in *. split; [lia | congruence].
 Qed.
 
+Lemma dt_pickle_copy_instant zdb r v : not_deep r -> dt_valid v -> ~ fold_matters zdb v ->
+  exists v', dt_rebuild r v = Ok v' /\ dt_obs_nofold zdb v' = dt_obs_nofold zdb v.
+Proof.
+  intros Hr Hv Hn. eexists. split; [apply dt_rebuild_pickle_copy; assumption|]. apply dt_obs_nofold_unfold; assumption.
+Qed.
+
+Lemma dt_pickle_copy_changes zdb r v k : not_deep r -> dt_valid v ->
+  dt_tz v = TzNamed k -> dt_fold v = true -> ~ wall_unique (zdb k) (dt_W v / MEG) ->
+  exists v', dt_rebuild r v = Ok v' /\ dt_inst zdb v' <> dt_inst zdb v /\ dt_off zdb v' <> dt_off zdb v /\ dt_fold v' <> dt_fold v.
+Proof.
+  intros Hr Hv Htz Hf Hu. eexists. split; [apply dt_rebuild_pickle_copy; assumption|].
+  destruct (dt_inst_changes zdb v k Htz Hf Hu) as [A B]. repeat split; try assumption. cbn. rewrite Hf. discriminate.
+Qed.
+
 (* ------------------------------------------------------------------ Time *)
 Lemma time_new_state h mi s us tz :
   time_new [AInt h; AInt mi; AInt s; AInt us; ATz tz] [] =
@@ -366,6 +380,15 @@ Section Iv.
     - rewrite (date_rebuild_id r n Hv). reflexivity.
   Qed.
 
+  Definition ep_fold0 (e : ep) : Prop := match e with EpDt d => dt_fold d = false | EpDate _ => True end.
+  Lemma iv_pickle_id_fold0 p s e a iv : interval_new zdb s e a = Ok iv ->
+    ep_valid s -> ep_valid e -> ep_fold0 s -> ep_fold0 e -> iv_rebuild zdb (RPickle p) iv = Ok iv.
+  Proof.
+    intros H Vs Ve Fs Fe. apply (iv_pickle_id p s e a iv H); apply ep_rebuild_id; try assumption.
+    - intros d ->. exact Fs.
+    - intros d ->. exact Fe.
+  Qed.
+
   (* copy.deepcopy of an Interval runs Duration.__deepcopy__, i.e. Interval(days=...): TypeError, always *)
   Lemma iv_deep_raises iv : iv_rebuild zdb RDeep iv = Raise E_TypeError.
   Proof. reflexivity. Qed.
@@ -397,75 +420,140 @@ Qed.
 Lemma time_witness : forall r, tm_rebuild r (mktm 9000000000 true TzNone) = Ok (mktm 9000000000 false TzNone).
 Proof. intro r. apply (tm_rebuild_eq r (mktm 9000000000 true TzNone)). split; [cbn; lia | exact I]. Qed.
 
+(* closed float computations run in the VM on a boolean check; the existential statements are then read off without conversion *)
+Fixpoint zlist_eqb (a b : list Z) : bool :=
+  match a, b with
+  | [], [] => true
+  | x :: r, y :: t => (x =? y) && zlist_eqb r t
+  | _, _ => false
+  end.
+Lemma zlist_eqb_refl a : zlist_eqb a a = true.
+Proof. induction a; cbn; [reflexivity | rewrite Z.eqb_refl, IHa; reflexivity]. Qed.
+Lemma zlist_neq a b : zlist_eqb a b = false -> a <> b.
+Proof. intros H E. subst. rewrite zlist_eqb_refl in H. discriminate. Qed.
+Definition triple_eqb (t : Z * Z * Z) (a b c : Z) : bool := let '(x, y, z) := t in (x =? a) && (y =? b) && (z =? c).
+Lemma triple_eqb_true t a b c : triple_eqb t a b c = true -> t = (a, b, c).
+Proof. destruct t as [[x y] z]. unfold triple_eqb. intro H. repeat (apply andb_true_iff in H; destruct H as [H ?]). f_equal; [f_equal|]; lia. Qed.
+
+Ltac split_and H := repeat (let H2 := fresh "B" in apply andb_true_iff in H; destruct H as [H H2]).
+
+Definition dur_deep_check : bool :=
+  match duration_new 3 0 0 0 0 0 2 0 0 with
+  | Ok d => match dur_rebuild RDeep d with
+            | Ok d' => (d_weeks d =? 2) && (d_weeks d' =? 0) && triple_eqb (td_norm (d_N d)) 17 0 0 && triple_eqb (td_norm (d_N d')) 3 0 0
+                       && negb (zlist_eqb (dur_public d') (dur_public d))
+            | Raise _ => false
+            end
+  | Raise _ => false
+  end.
+Lemma dur_deep_check_true : dur_deep_check = true. Proof. vm_compute. reflexivity. Qed.
+
 Lemma dur_deep_witness :
   exists d d', duration_new 3 0 0 0 0 0 2 0 0 = Ok d /\ d_weeks d = 2 /\ dur_rebuild RDeep d = Ok d' /\ d_weeks d' = 0
     /\ td_norm (d_N d) = (17, 0, 0) /\ td_norm (d_N d') = (3, 0, 0) /\ dur_public d' <> dur_public d.
 Proof.
-  destruct (duration_new 3 0 0 0 0 0 2 0 0) as [d|] eqn:E; [|vm_compute in E; discriminate].
-  destruct (dur_rebuild RDeep d) as [d'|] eqn:E'; [|revert E'; vm_compute in E; inversion E; subst; vm_compute; discriminate].
-  exists d, d'. vm_compute in E. inversion E; subst; clear E. vm_compute in E'. inversion E'; subst; clear E'.
-  repeat split; try reflexivity. vm_compute. discriminate.
+  pose proof dur_deep_check_true as H. unfold dur_deep_check in H.
+  destruct (duration_new 3 0 0 0 0 0 2 0 0) as [d|] eqn:E1; [|discriminate].
+  destruct (dur_rebuild RDeep d) as [d'|] eqn:E2; [|discriminate].
+  split_and H. exists d, d'. repeat split; try assumption; try lia; try (apply triple_eqb_true; assumption).
+  apply zlist_neq. apply negb_true_iff. assumption.
 Qed.
+
+Definition dur_pickle_check (r : route) : bool :=
+  match duration_new 3 0 0 0 0 0 0 1 2 with
+  | Ok d => match dur_rebuild r d with
+            | Ok d' => (d_years d =? 1) && (d_months d =? 2) && (d_years d' =? 0) && (d_months d' =? 0) && (d_weeks d' =? 61) && (d_rdays d' =? 1)
+                       && negb (zlist_eqb (dur_public d') (dur_public d))
+            | Raise _ => false
+            end
+  | Raise _ => false
+  end.
+Lemma dur_pickle_check_true : forall r, not_deep r -> dur_pickle_check r = true.
+Proof. intros [p| |] Hr; [vm_compute; reflexivity | vm_compute; reflexivity | destruct Hr]. Qed.
 
 Lemma dur_pickle_witness : forall r, not_deep r ->
   exists d d', duration_new 3 0 0 0 0 0 0 1 2 = Ok d /\ d_years d = 1 /\ d_months d = 2 /\ dur_rebuild r d = Ok d'
     /\ d_years d' = 0 /\ d_months d' = 0 /\ d_weeks d' = 61 /\ d_rdays d' = 1 /\ dur_public d' <> dur_public d.
 Proof.
-  intros r Hr.
-  destruct (duration_new 3 0 0 0 0 0 0 1 2) as [d|] eqn:E; [|vm_compute in E; discriminate].
-  assert (Ha : d_abs d = false) by (apply years_months_signature in E; tauto).
-  pose proof (dur_rebuild_native r d Hr Ha) as R.
-  vm_compute in E. inversion E; subst; clear E.
-  destruct (dur_rebuild r _) as [d'|] eqn:E'; [|vm_compute in R; discriminate].
-  eexists _, d'. split; [reflexivity|]. vm_compute in R. inversion R; subst; clear R.
-  repeat split; try reflexivity. vm_compute. discriminate.
+  intros r Hr. pose proof (dur_pickle_check_true r Hr) as H. unfold dur_pickle_check in H.
+  destruct (duration_new 3 0 0 0 0 0 0 1 2) as [d|] eqn:E3; [|discriminate].
+  destruct (dur_rebuild r d) as [d'|] eqn:E4; [|discriminate].
+  split_and H. exists d, d'. repeat split; try assumption; try lia.
+  apply zlist_neq. apply negb_true_iff. assumption.
 Qed.
+
+Definition absdur_deep_check : bool :=
+  match absolute_duration_new (-3) 0 0 0 0 (-5) 0 0 0 with
+  | Ok d => match dur_rebuild RDeep d with
+            | Ok d' => dur_invert d && negb (dur_invert d') && negb (zlist_eqb (dur_public d') (dur_public d))
+            | Raise _ => false
+            end
+  | Raise _ => false
+  end.
+Lemma absdur_deep_check_true : absdur_deep_check = true. Proof. vm_compute. reflexivity. Qed.
 
 Lemma absdur_deep_witness :
   exists d d', absolute_duration_new (-3) 0 0 0 0 (-5) 0 0 0 = Ok d /\ dur_invert d = true /\ dur_rebuild RDeep d = Ok d'
     /\ dur_invert d' = false /\ dur_public d' <> dur_public d.
 Proof.
-  destruct (absolute_duration_new (-3) 0 0 0 0 (-5) 0 0 0) as [d|] eqn:E; [|vm_compute in E; discriminate].
-  vm_compute in E. inversion E; subst; clear E.
-  destruct (dur_rebuild RDeep _) as [d'|] eqn:E'; [|vm_compute in E'; discriminate].
-  vm_compute in E'. inversion E'; subst; clear E'.
-  eexists _, _. split; [reflexivity|]. repeat split; try reflexivity. vm_compute. discriminate.
+  pose proof absdur_deep_check_true as H. unfold absdur_deep_check in H.
+  destruct (absolute_duration_new (-3) 0 0 0 0 (-5) 0 0 0) as [d|] eqn:E5; [|discriminate].
+  destruct (dur_rebuild RDeep d) as [d'|] eqn:E6; [|discriminate].
+  split_and H. exists d, d'. repeat split; try assumption.
+  - apply negb_true_iff. assumption.
+  - apply zlist_neq. apply negb_true_iff. assumption.
 Qed.
 
 (* Interval [02:30 fold=1 (+01:00) -> 04:00] in Paris, 90 minutes long: the pickled copy starts at 02:30+02:00 and is 150 minutes long *)
 Definition iv_wit_start : ep := EpDt paris_0230_fold1.
 Definition iv_wit_end : ep := EpDt (mkdt (W_0230 + 5400 * 1000000) false (TzNamed 0)).
+Definition iv_pickle_check (p : Z) : bool :=
+  match interval_new zdb_paris iv_wit_start iv_wit_end false with
+  | Ok iv => match iv_rebuild zdb_paris (RPickle p) iv with
+             | Ok iv' => negb (zlist_eqb (iv_obs zdb_paris iv') (iv_obs zdb_paris iv))
+                         && triple_eqb (td_norm (iv_N iv)) 0 5400 0 && triple_eqb (td_norm (iv_N iv')) 0 9000 0
+             | Raise _ => false
+             end
+  | Raise _ => false
+  end.
+(* the protocol number is not consulted by the model: the VM evaluates the check with p free *)
+Lemma iv_pickle_check_true : forall p, iv_pickle_check p = true.
+Proof. intro p. vm_compute. reflexivity. Qed.
+
 Lemma iv_pickle_witness : forall p,
   exists iv iv', interval_new zdb_paris iv_wit_start iv_wit_end false = Ok iv /\ td_norm (iv_N iv) = (0, 5400, 0)
     /\ iv_rebuild zdb_paris (RPickle p) iv = Ok iv' /\ td_norm (iv_N iv') = (0, 9000, 0)
     /\ iv_obs zdb_paris iv' <> iv_obs zdb_paris iv.
 Proof.
-  intro p.
-  destruct (interval_new zdb_paris iv_wit_start iv_wit_end false) as [iv|] eqn:E; [|vm_compute in E; discriminate].
-  assert (S : iv_state iv = Ok [AEp iv_wit_start; AEp iv_wit_end; ABool false]) by (apply (iv_state_eq zdb_paris _ _ _ _ E)).
-  assert (R : iv_rebuild zdb_paris (RPickle p) iv =
-              bind (iv_state iv) (fun args => bind (map_res (ep_arg (RPickle p)) args) (fun args' => interval_ctor zdb_paris args' []))) by reflexivity.
-  rewrite S in R. cbn [bind map_res ep_arg ep_rebuild iv_wit_start iv_wit_end] in R.
-  rewrite (dt_rebuild_pickle_copy (RPickle p) paris_0230_fold1 I) in R by (split; [reflexivity | exact I]).
-  rewrite (dt_rebuild_pickle_copy (RPickle p) (mkdt (W_0230 + 5400 * 1000000) false (TzNamed 0)) I) in R by (split; [reflexivity | exact I]).
-  cbn [bind dt_W dt_tz paris_0230_fold1] in R. rewrite interval_ctor_args in R.
-  vm_compute in E. inversion E; subst; clear E.
-  destruct (iv_rebuild zdb_paris (RPickle p) _) as [iv'|] eqn:E'; [|vm_compute in R; discriminate].
-  vm_compute in R. inversion R; subst; clear R.
-  eexists _, _. split; [reflexivity|]. repeat split; try reflexivity. vm_compute. discriminate.
+  intro p. pose proof (iv_pickle_check_true p) as H. unfold iv_pickle_check in H.
+  destruct (interval_new zdb_paris iv_wit_start iv_wit_end false) as [iv|] eqn:E7; [|discriminate].
+  destruct (iv_rebuild zdb_paris (RPickle p) iv) as [iv'|] eqn:E8; [|discriminate].
+  split_and H. exists iv, iv'. repeat split; try assumption; try (apply triple_eqb_true; assumption).
+  apply zlist_neq. apply negb_true_iff. assumption.
 Qed.
 
 (* satisfiability of the hypotheses used above *)
 Example dt_valid_example : dt_valid (mkdt W_0230 false (TzFixed 3600 [43; 48; 49; 58; 48; 48])).
 Proof. split; reflexivity. Qed.
+Definition dur_weeks0_check : bool :=
+  match duration_new 3 0 7 0 0 5 0 1 2 with
+  | Ok d => (d_weeks d =? 0) && (Z.abs (d_N d) <? B32) && (Z.abs (d_N d - YM 1 2 * 86400 * 1000000) <? B32)
+  | Raise _ => false
+  end.
 Example dur_weeks0_example : exists d, duration_new 3 0 7 0 0 5 0 1 2 = Ok d /\ d_weeks d = 0 /\ D9 (d_N d) (YM 1 2 * 86400).
 Proof.
-  destruct (duration_new 3 0 7 0 0 5 0 1 2) as [d|] eqn:E; [|vm_compute in E; discriminate].
-  exists d. split; [reflexivity|]. vm_compute in E. inversion E; subst; clear E. split; [reflexivity|].
-  right. split; vm_compute; reflexivity.
+  assert (H : dur_weeks0_check = true) by (vm_compute; reflexivity). unfold dur_weeks0_check in H.
+  destruct (duration_new 3 0 7 0 0 5 0 1 2) as [d|] eqn:E9; [|discriminate].
+  split_and H. exists d. split; [reflexivity|]. split; [lia|]. right. split; lia.
 Qed.
-Example iv_example : exists iv, interval_new zdb_paris iv_wit_end iv_wit_start true = Ok iv /\ iv_invert iv = true /\ iv_start iv = iv_wit_start.
+Definition iv_example_check : bool :=
+  match interval_new zdb_paris iv_wit_end iv_wit_start true with
+  | Ok iv => iv_invert iv && zlist_eqb (ep_obs zdb_paris (iv_start iv)) (ep_obs zdb_paris iv_wit_start)
+  | Raise _ => false
+  end.
+Example iv_example : exists iv, interval_new zdb_paris iv_wit_end iv_wit_start true = Ok iv /\ iv_invert iv = true.
 Proof.
-  destruct (interval_new zdb_paris iv_wit_end iv_wit_start true) as [iv|] eqn:E; [|vm_compute in E; discriminate].
-  exists iv. split; [reflexivity|]. vm_compute in E. inversion E; subst; clear E. split; reflexivity.
+  assert (H : iv_example_check = true) by (vm_compute; reflexivity). unfold iv_example_check in H.
+  destruct (interval_new zdb_paris iv_wit_end iv_wit_start true) as [iv|] eqn:E10; [|discriminate].
+  split_and H. exists iv. split; [reflexivity | assumption].
 Qed.
